@@ -3,7 +3,7 @@
 //   I <strategy> <fam> <seed> <|AX-I|> <|XA-I|> <|A|> <|X|>                         (C10, infinity norms)
 //   T <upper|unilower> <fam> <seed> <|AX-I|> <|XA-I|> <|A|> <|X|> <nonzeros in the other triangle of X>
 //   B <seed> <max over the batch of |AX-I|> <|A|> <|X|>                                (batched inverse)
-//   L <strategy> <pivot encoding> <fam> <seed> <|LU-PA|> <| |L||U| |> <|A|> <structure errors> <perm ok> <|reconstruct-A|>
+//   L <strategy> <pivot encoding> <fam> <seed> <|LU-PA|> <| |L||U| |> <|A|> <structure errors> <perm ok> <|reconstruct-A|> <reference growth>
 //   S <strategy> <ncols> <fam> <seed> <|AX-B|> <|A|> <|X|> <|B|> <|A^-1| estimate>
 //   Q <strategy> <fam> <seed> <|QtQ-I|> <|QR-PA|> <|A|> <nonzeros below diag of R> <perm ok> <|det_qr| - |prod diag R|> <prod>
 #include <Fastor/Fastor.h>
@@ -24,12 +24,22 @@ typedef TY T; typedef long double LD; static constexpr size_t N = NN;
 
 template<size_t R_, size_t C_> static void praw(const Tensor<T,R_,C_>& M) { std::printf(" :"); for (size_t i = 0; i < R_; ++i) for (size_t j = 0; j < C_; ++j) vh_put(M(i, j)); }
 static const bool RAW = (NN <= 9) && (sizeof(T) == 8);
+// a maximum that does not lose a NaN (std::max(x, NaN) returns x)
+static inline LD nmax(LD a, LD b) { if (!(b == b) || !(a == a)) return 1e300L; return a < b ? b : a; }
 static void pl(LD v) { std::printf(" %.6Le", v); }
 
 // ---- matrix families (entries are built in long double, then rounded to T)
 static Tensor<T,N,N> gen(int fam, long seed) {
     vh_lcg g(seed * 7919 + fam * 131 + N); Tensor<T,N,N> A;
     auto rnd = [&](int lo, int hi) { return (LD)(lo + (long)(g.next() % (unsigned long)(hi - lo + 1))); };
+    if (fam == 6) {                        // diagonally dominant, last row purely diagonal, then first and last rows exchanged: the leading blocks are
+        Tensor<T,N,N> D = gen(0, seed);    // singular (zero first row) unless the rows are pivoted back - only pivoted strategies are defined on it
+        for (size_t j = 0; j + 1 < N; ++j) D(N - 1, j) = 0;
+        for (size_t j = 0; j < N; ++j) { A(0, j) = D(N - 1, j); A(N - 1, j) = D(0, j); }
+        for (size_t i = 1; i + 1 < N; ++i) for (size_t j = 0; j < N; ++j) A(i, j) = D(i, j);
+        if (N == 1) A(0, 0) = D(0, 0);
+        return A;
+    }
     if (fam == 0 || fam == 1) {            // strictly diagonally dominant, small integer entries; fam 1: rows permuted
         std::vector<LD> M(N * N);
         for (size_t i = 0; i < N; ++i) { LD s = 0; for (size_t j = 0; j < N; ++j) if (i != j) { M[i * N + j] = rnd(-3, 3); s += std::fabs(M[i * N + j]); } M[i * N + i] = (s + 1 + (i % 3)) * ((i % 2) ? -1 : 1); }
@@ -40,17 +50,17 @@ static Tensor<T,N,N> gen(int fam, long seed) {
         std::vector<LD> Lo(N * N, 0), Up(N * N, 0);
         for (size_t i = 0; i < N; ++i) for (size_t j = 0; j < N; ++j) { if (i == j) Lo[i * N + j] = Up[i * N + j] = 1; else if (j < i && i - j <= 2) Lo[i * N + j] = rnd(-1, 1); else if (j > i && j - i <= 2) Up[i * N + j] = rnd(-1, 1); }
         for (size_t i = 0; i < N; ++i) for (size_t j = 0; j < N; ++j) { LD s = 0; for (size_t k = 0; k < N; ++k) s += Lo[i * N + k] * Up[k * N + j]; A(i, j) = (T)s; }
-    } else {                               // H1 * diag * H2 with Householder reflections: condition number 10 (fam 3) or 1000 (fam 4)
-        const LD cond = fam == 3 ? 10.0L : 1000.0L; std::vector<LD> u(N), v(N), D(N);
+    } else {                               // H1 * diag * H2 with Householder reflections: condition number 10 (fam 3), 1000 (fam 4), 1e5 (fam 5)
+        const LD cond = fam == 3 ? 10.0L : fam == 4 ? 1000.0L : 100000.0L; std::vector<LD> u(N), v(N), D(N);
         LD nu = 0, nv = 0; for (size_t i = 0; i < N; ++i) { u[i] = rnd(-5, 5) + 0.5L; v[i] = rnd(-5, 5) - 0.25L; nu += u[i] * u[i]; nv += v[i] * v[i]; }
         for (size_t i = 0; i < N; ++i) D[i] = N == 1 ? 1.0L : std::pow(cond, -(LD)i / (LD)(N - 1));
         for (size_t i = 0; i < N; ++i) for (size_t j = 0; j < N; ++j) { LD s = 0; for (size_t k = 0; k < N; ++k) { const LD h1 = (i == k ? 1.0L : 0.0L) - 2 * u[i] * u[k] / nu; const LD h2 = (k == j ? 1.0L : 0.0L) - 2 * v[k] * v[j] / nv; s += h1 * D[k] * h2; } A(i, j) = (T)(4 * s); }
     }
     return A;
 }
-template<size_t R, size_t C> static LD inf_norm(const Tensor<T,R,C>& A) { LD m = 0; for (size_t i = 0; i < R; ++i) { LD s = 0; for (size_t j = 0; j < C; ++j) s += std::fabs((LD)A(i, j)); m = std::max(m, s); } return m; }
+template<size_t R, size_t C> static LD inf_norm(const Tensor<T,R,C>& A) { LD m = 0; for (size_t i = 0; i < R; ++i) { LD s = 0; for (size_t j = 0; j < C; ++j) s += std::fabs((LD)A(i, j)); m = nmax(m, s); } return m; }
 // |A*X - I|_inf
-static LD res_id(const Tensor<T,N,N>& A, const Tensor<T,N,N>& X) { LD m = 0; for (size_t i = 0; i < N; ++i) { LD s = 0; for (size_t j = 0; j < N; ++j) { LD e = (i == j) ? -1.0L : 0.0L; for (size_t k = 0; k < N; ++k) e += (LD)A(i, k) * (LD)X(k, j); s += std::fabs(e); } m = std::max(m, s); } if (!(m == m)) m = 1e300L; return m; }
+static LD res_id(const Tensor<T,N,N>& A, const Tensor<T,N,N>& X) { LD m = 0; for (size_t i = 0; i < N; ++i) { LD s = 0; for (size_t j = 0; j < N; ++j) { LD e = (i == j) ? -1.0L : 0.0L; for (size_t k = 0; k < N; ++k) e += (LD)A(i, k) * (LD)X(k, j); s += std::fabs(e); } m = nmax(m, s); } if (!(m == m)) m = 1e300L; return m; }
 static bool finite_all(const T* p, size_t n) { for (size_t i = 0; i < n; ++i) if (!(std::fabs((double)p[i]) < 1e300)) return false; return true; }
 
 // growth of unpivoted Gaussian elimination on M, in long double: | |L||U| |_inf / |M|_inf  (1e300 on a zero pivot)
@@ -60,7 +70,7 @@ static LD growth(const Tensor<T,N,N>& M) {
         for (size_t i = 0; i <= j; ++i) { LD v = (LD)M(i, j); for (size_t k = 0; k < i; ++k) v -= L[i * N + k] * U[k * N + j]; U[i * N + j] = v; }
         if (U[j * N + j] == 0) return 1e300L;
         for (size_t i = j + 1; i < N; ++i) { LD v = (LD)M(i, j); for (size_t k = 0; k < j; ++k) v -= L[i * N + k] * U[k * N + j]; L[i * N + j] = v / U[j * N + j]; } }
-    LD g = 0; for (size_t i = 0; i < N; ++i) { LD sr = 0; for (size_t j = 0; j < N; ++j) { LD a = 0; for (size_t k = 0; k < N; ++k) a += std::fabs(L[i * N + k] * U[k * N + j]); sr += a; } g = std::max(g, sr); }
+    LD g = 0; for (size_t i = 0; i < N; ++i) { LD sr = 0; for (size_t j = 0; j < N; ++j) { LD a = 0; for (size_t k = 0; k < N; ++k) a += std::fabs(L[i * N + k] * U[k * N + j]); sr += a; } g = nmax(g, sr); }
     const LD na = inf_norm(M); return na > 0 ? g / na : 1e300L;
 }
 // max over k of |inverse(leading k x k block)|_inf * |M|_inf, in long double (Gauss-Jordan with partial pivoting); 1e300 if a block is singular
@@ -76,18 +86,18 @@ static LD lead_cond(const Tensor<T,N,N>& M) {
             const LD d = a[c * 2 * k + c]; for (size_t j = 0; j < 2 * k; ++j) a[c * 2 * k + j] /= d;
             for (size_t r = 0; r < k; ++r) if (r != c) { const LD f = a[r * 2 * k + c]; if (f != 0) for (size_t j = 0; j < 2 * k; ++j) a[r * 2 * k + j] -= f * a[c * 2 * k + j]; }
         }
-        LD m = 0; for (size_t i = 0; i < k; ++i) { LD srow = 0; for (size_t j = 0; j < k; ++j) srow += std::fabs(a[i * 2 * k + k + j]); m = std::max(m, srow); }
-        worst = std::max(worst, m);
+        LD m = 0; for (size_t i = 0; i < k; ++i) { LD srow = 0; for (size_t j = 0; j < k; ++j) srow += std::fabs(a[i * 2 * k + k + j]); m = nmax(m, srow); }
+        worst = nmax(worst, m);
     }
     return worst * inf_norm(M);
 }
 static LD lead_cond_piv(const Tensor<T,N,N>& A) { Tensor<size_t,N> P; pivot_inplace(A, P); Tensor<T,N,N> B = apply_pivot(A, P); return lead_cond(B); }
 static LD growth_piv(const Tensor<T,N,N>& A) { Tensor<size_t,N> P; pivot_inplace(A, P); Tensor<T,N,N> B = apply_pivot(A, P); return growth(B); }
-static const int FAMS[] = { 0, 2, 3, 4 }; static const int PFAMS[] = { 0, 1, 2, 3, 4 };
+static const int FAMS[] = { 0, 2, 3, 4 }; static const int PFAMS[] = { 0, 1, 2, 3, 4, 6 }; static const int NPF = 6;
 
 #if WHICH == 10
 template<InvCompType S> static void inv_one(const char* name, bool piv) {
-    for (int fi = 0; fi < (piv ? 5 : 4); ++fi) for (long sd = 0; sd < NSEEDS; ++sd) {
+    for (int fi = 0; fi < (piv ? NPF : 4); ++fi) for (long sd = 0; sd < NSEEDS; ++sd) {
         const int fam = piv ? PFAMS[fi] : FAMS[fi]; const Tensor<T,N,N> A = gen(fam, sd); const Tensor<T,N,N> X = inverse<S>(A);
         std::printf("I %s %d %ld", name, fam, sd); pl(res_id(A, X)); pl(res_id(X, A)); pl(inf_norm(A)); pl(inf_norm(X)); pl(piv ? growth_piv(A) : growth(A)); pl(piv ? lead_cond_piv(A) : lead_cond(A)); std::printf("\n");
         if (RAW && fam == 2 && !piv) { std::printf("R inv %s %ld", name, sd); praw(A); praw(X); std::printf("\n"); }
@@ -114,7 +124,7 @@ static void c10() {
         Tensor<T,3,N,N> Bt; Tensor<T,N,N> As[3];
         for (size_t b = 0; b < 3; ++b) { As[b] = gen(b == 1 ? 2 : 0, sd * 3 + b); for (size_t i = 0; i < N; ++i) for (size_t j = 0; j < N; ++j) Bt(b, i, j) = As[b](i, j); }
         Tensor<T,3,N,N> Xt = inverse(Bt); LD worst = 0, na = 0, nx = 0;
-        for (size_t b = 0; b < 3; ++b) { Tensor<T,N,N> X; for (size_t i = 0; i < N; ++i) for (size_t j = 0; j < N; ++j) X(i, j) = Xt(b, i, j); worst = std::max(worst, res_id(As[b], X)); na = std::max(na, inf_norm(As[b])); nx = std::max(nx, inf_norm(X)); }
+        for (size_t b = 0; b < 3; ++b) { Tensor<T,N,N> X; for (size_t i = 0; i < N; ++i) for (size_t j = 0; j < N; ++j) X(i, j) = Xt(b, i, j); worst = nmax(worst, res_id(As[b], X)); na = nmax(na, inf_norm(As[b])); nx = nmax(nx, inf_norm(X)); }
         std::printf("B %ld", sd); pl(worst); pl(na); pl(nx); std::printf("\n");
     }
 #endif
@@ -122,32 +132,32 @@ static void c10() {
 #endif
 
 #if WHICH == 11
-static void report_lu(const char* name, const char* enc, int fam, long sd, const Tensor<T,N,N>& A, const Tensor<T,N,N>& L, const Tensor<T,N,N>& U, const std::vector<size_t>& perm, bool permok, const Tensor<T,N,N>& Rc) {
+static void report_lu(const char* name, const char* enc, int fam, long sd, const Tensor<T,N,N>& A, const Tensor<T,N,N>& L, const Tensor<T,N,N>& U, const std::vector<size_t>& perm, bool permok, const Tensor<T,N,N>& Rc, LD refgrowth) {
     long st = 0; for (size_t i = 0; i < N; ++i) for (size_t j = 0; j < N; ++j) { if (j > i && L(i, j) != 0) ++st; if (j < i && U(i, j) != 0) ++st; if (i == j && L(i, j) != 1) ++st; }
     LD r = 0, g = 0, rr = 0;
-    for (size_t i = 0; i < N; ++i) { LD s = 0, sg = 0, sr = 0; for (size_t j = 0; j < N; ++j) { LD e = -(LD)A(perm[i], j), a = 0; for (size_t k = 0; k < N; ++k) { e += (LD)L(i, k) * (LD)U(k, j); a += std::fabs((LD)L(i, k) * (LD)U(k, j)); } s += std::fabs(e); sg += a; sr += std::fabs((LD)Rc(i, j) - (LD)A(i, j)); } r = std::max(r, s); g = std::max(g, sg); rr = std::max(rr, sr); }
+    for (size_t i = 0; i < N; ++i) { LD s = 0, sg = 0, sr = 0; for (size_t j = 0; j < N; ++j) { LD e = -(LD)A(perm[i], j), a = 0; for (size_t k = 0; k < N; ++k) { e += (LD)L(i, k) * (LD)U(k, j); a += std::fabs((LD)L(i, k) * (LD)U(k, j)); } s += std::fabs(e); sg += a; sr += std::fabs((LD)Rc(i, j) - (LD)A(i, j)); } r = nmax(r, s); g = nmax(g, sg); rr = nmax(rr, sr); }
     if (!(r == r)) r = 1e300L; if (!(rr == rr)) rr = 1e300L;
     if (!finite_all(L.data(), N * N) || !finite_all(U.data(), N * N)) g = 1e300L;      // a zero pivot: the strategy is not defined on this matrix
-    std::printf("L %s %s %d %ld", name, enc, fam, sd); pl(r); pl(g); pl(inf_norm(A)); std::printf(" %ld %d", st, permok ? 1 : 0); pl(rr); std::printf("\n");
+    std::printf("L %s %s %d %ld", name, enc, fam, sd); pl(r); pl(g); pl(inf_norm(A)); std::printf(" %ld %d", st, permok ? 1 : 0); pl(rr); pl(refgrowth); std::printf("\n");
 }
 template<LUCompType S> static void lu_nopiv(const char* name) {
     for (int fi = 0; fi < 4; ++fi) for (long sd = 0; sd < NSEEDS; ++sd) {
         const int fam = FAMS[fi]; const Tensor<T,N,N> A = gen(fam, sd); Tensor<T,N,N> L, U; L.fill((T)7); U.fill((T)7);      // sentinel: entries the code never writes show up
         lu<S>(A, L, U); std::vector<size_t> id(N); for (size_t i = 0; i < N; ++i) id[i] = i;
         Tensor<T,N,N> Uc = U; Tensor<T,N,N> Rc = reconstruct(L, Uc);
-        report_lu(name, "none", fam, sd, A, L, U, id, true, Rc);
+        report_lu(name, "none", fam, sd, A, L, U, id, true, Rc, growth(A));
         if (RAW && fam == 2) { std::printf("R lu %s %ld", name, sd); praw(A); praw(L); praw(U); std::printf("\n"); }
     }
 }
 template<LUCompType S> static void lu_piv(const char* name) {
-    for (int fi = 0; fi < 5; ++fi) for (long sd = 0; sd < NSEEDS; ++sd) {
+    for (int fi = 0; fi < NPF; ++fi) for (long sd = 0; sd < NSEEDS; ++sd) {
         const int fam = PFAMS[fi]; const Tensor<T,N,N> A = gen(fam, sd);
         { Tensor<T,N,N> L, U; L.fill((T)7); U.fill((T)7); Tensor<size_t,N> P; lu<S>(A, L, U, P); std::vector<size_t> perm(N); std::vector<int> seen(N, 0); bool ok = true;
           for (size_t i = 0; i < N; ++i) { perm[i] = P(i) < N ? P(i) : 0; if (P(i) >= N || seen[P(i)]++) ok = false; }
-          Tensor<T,N,N> Uc = U; Tensor<T,N,N> Rc = reconstruct(L, Uc, P); report_lu(name, "vector", fam, sd, A, L, U, perm, ok, Rc); }
+          Tensor<T,N,N> Uc = U; Tensor<T,N,N> Rc = reconstruct(L, Uc, P); report_lu(name, "vector", fam, sd, A, L, U, perm, ok, Rc, growth_piv(A)); }
         { Tensor<T,N,N> L, U, P; L.fill((T)7); U.fill((T)7); lu<S>(A, L, U, P); std::vector<size_t> perm(N, 0); std::vector<int> seen(N, 0); bool ok = true;
           for (size_t i = 0; i < N; ++i) { int ones = 0; for (size_t j = 0; j < N; ++j) { if (P(i, j) == 1) { ++ones; perm[i] = j; } else if (P(i, j) != 0) ok = false; } if (ones != 1 || seen[perm[i]]++) ok = false; }
-          Tensor<T,N,N> Uc = U; Tensor<T,N,N> Rc = reconstruct(L, Uc, P); report_lu(name, "matrix", fam, sd, A, L, U, perm, ok, Rc); }
+          Tensor<T,N,N> Uc = U; Tensor<T,N,N> Rc = reconstruct(L, Uc, P); report_lu(name, "matrix", fam, sd, A, L, U, perm, ok, Rc, growth_piv(A)); }
     }
 }
 static void c11() { lu_nopiv<LUCompType::BlockLU>("BlockLU"); lu_nopiv<LUCompType::SimpleLU>("SimpleLU"); lu_piv<LUCompType::BlockLUPiv>("BlockLUPiv"); lu_piv<LUCompType::SimpleLUPiv>("SimpleLUPiv"); }
@@ -155,12 +165,12 @@ static void c11() { lu_nopiv<LUCompType::BlockLU>("BlockLU"); lu_nopiv<LUCompTyp
 
 #if WHICH == 12
 template<size_t C> static void rep_solve(const char* name, int fam, long sd, const Tensor<T,N,N>& A, const Tensor<T,N,C>& B, const Tensor<T,N,C>& X, LD ninv, LD gr = 1, LD lc = 1) {
-    LD r = 0; for (size_t i = 0; i < N; ++i) { LD s = 0; for (size_t j = 0; j < C; ++j) { LD e = -(LD)B(i, j); for (size_t k = 0; k < N; ++k) e += (LD)A(i, k) * (LD)X(k, j); s += std::fabs(e); } r = std::max(r, s); }
+    LD r = 0; for (size_t i = 0; i < N; ++i) { LD s = 0; for (size_t j = 0; j < C; ++j) { LD e = -(LD)B(i, j); for (size_t k = 0; k < N; ++k) e += (LD)A(i, k) * (LD)X(k, j); s += std::fabs(e); } r = nmax(r, s); }
     if (!(r == r)) r = 1e300L;
     std::printf("S %s %zu %d %ld", name, C, fam, sd); pl(r); pl(inf_norm(A)); pl(inf_norm(X)); pl(inf_norm(B)); pl(ninv); pl(gr); pl(lc); std::printf("\n");
 }
 template<SolveCompType S, size_t C> static void solve_cols(const char* name, bool piv) {
-    for (int fi = 0; fi < (piv ? 5 : 4); ++fi) for (long sd = 0; sd < NSEEDS; ++sd) {
+    for (int fi = 0; fi < (piv ? NPF : 4); ++fi) for (long sd = 0; sd < NSEEDS; ++sd) {
         const int fam = piv ? PFAMS[fi] : FAMS[fi]; const Tensor<T,N,N> A = gen(fam, sd); Tensor<T,N,C> B; vh_fill(B.data(), N * C, sd + 50, -4, 4);
         const LD ninv = inf_norm(Tensor<T,N,N>(inverse<InvCompType::SimpleInvPiv>(A)));
         const Tensor<T,N,C> X = solve<S>(A, B); rep_solve<C>(name, fam, sd, A, B, X, ninv, piv ? growth_piv(A) : growth(A), piv ? lead_cond_piv(A) : lead_cond(A));
@@ -168,13 +178,27 @@ template<SolveCompType S, size_t C> static void solve_cols(const char* name, boo
     }
 }
 template<SolveCompType S> static void solve_all(const char* name, bool piv) {
-    for (int fi = 0; fi < (piv ? 5 : 4); ++fi) for (long sd = 0; sd < NSEEDS; ++sd) {       // vector right-hand side
+    for (int fi = 0; fi < (piv ? NPF : 4); ++fi) for (long sd = 0; sd < NSEEDS; ++sd) {       // vector right-hand side
         const int fam = piv ? PFAMS[fi] : FAMS[fi]; const Tensor<T,N,N> A = gen(fam, sd); Tensor<T,N> b; vh_fill(b.data(), N, sd + 60, -4, 4);
         const LD ninv = inf_norm(Tensor<T,N,N>(inverse<InvCompType::SimpleInvPiv>(A)));
         const Tensor<T,N> x = solve<S>(A, b); Tensor<T,N,1> B1, X1; for (size_t i = 0; i < N; ++i) { B1(i, 0) = b(i); X1(i, 0) = x(i); }
         std::string nm = std::string(name) + "/vector"; rep_solve<1>(nm.c_str(), fam, sd, A, B1, X1, ninv, piv ? growth_piv(A) : growth(A), piv ? lead_cond_piv(A) : lead_cond(A));
     }
+#ifdef QUICKTIER
+    solve_cols<S, 2>(name, piv); solve_cols<S, 3>(name, piv);
+#else
     solve_cols<S, 1>(name, piv); solve_cols<S, 2>(name, piv); solve_cols<S, 3>(name, piv); solve_cols<S, 5>(name, piv);
+#endif
+    // the strategy must survive when an operand is an expression (the overloads for expression lhs / rhs / both)
+    for (int fi = 0; fi < (piv ? NPF : 4); ++fi) for (long sd = 0; sd < NSEEDS; ++sd) {
+        const int fam = piv ? PFAMS[fi] : FAMS[fi]; const Tensor<T,N,N> A = gen(fam, sd); Tensor<T,N> b; vh_fill(b.data(), N, sd + 61, -4, 4); Tensor<T,N,2> B; vh_fill(B.data(), N * 2, sd + 62, -4, 4);
+        const LD ninv = inf_norm(Tensor<T,N,N>(inverse<InvCompType::SimpleInvPiv>(A))); const LD gr = piv ? growth_piv(A) : growth(A), lc = piv ? lead_cond_piv(A) : lead_cond(A);
+        Tensor<T,N,1> B1; for (size_t i = 0; i < N; ++i) B1(i, 0) = b(i);
+        { const Tensor<T,N> x = solve<S>(A + (T)0 * A, b); Tensor<T,N,1> X1; for (size_t i = 0; i < N; ++i) X1(i, 0) = x(i); std::string nm = std::string(name) + "/expr_lhs/vector"; rep_solve<1>(nm.c_str(), fam, sd, A, B1, X1, ninv, gr, lc); }
+        { const Tensor<T,N> x = solve<S>(A, b + (T)0 * b); Tensor<T,N,1> X1; for (size_t i = 0; i < N; ++i) X1(i, 0) = x(i); std::string nm = std::string(name) + "/expr_rhs/vector"; rep_solve<1>(nm.c_str(), fam, sd, A, B1, X1, ninv, gr, lc); }
+        { const Tensor<T,N,2> X = solve<S>(A + (T)0 * A, B); std::string nm = std::string(name) + "/expr_lhs"; rep_solve<2>(nm.c_str(), fam, sd, A, B, X, ninv, gr, lc); }
+        { const Tensor<T,N,2> X = solve<S>(A + (T)0 * A, B + (T)0 * B); std::string nm = std::string(name) + "/expr_both"; rep_solve<2>(nm.c_str(), fam, sd, A, B, X, ninv, gr, lc); }
+    }
 }
 static void c12() {
     solve_all<SolveCompType::SimpleInv>("SimpleInv", false); solve_all<SolveCompType::SimpleInvPiv>("SimpleInvPiv", true);
@@ -196,7 +220,7 @@ static void c12() {
 static void rep_qr(const char* name, int fam, long sd, const Tensor<T,N,N>& A, const Tensor<T,N,N>& Q, const Tensor<T,N,N>& R, const std::vector<size_t>& perm, bool permok) {
     long nz = 0; for (size_t i = 0; i < N; ++i) for (size_t j = 0; j < i; ++j) if (R(i, j) != 0) ++nz;
     LD o = 0, r = 0; LD prod = 1;
-    for (size_t i = 0; i < N; ++i) { LD so = 0, sr = 0; prod *= (LD)R(i, i); for (size_t j = 0; j < N; ++j) { LD e = (i == j) ? -1.0L : 0.0L, f = -(LD)A(perm[i], j); for (size_t k = 0; k < N; ++k) { e += (LD)Q(k, i) * (LD)Q(k, j); f += (LD)Q(i, k) * (LD)R(k, j); } so += std::fabs(e); sr += std::fabs(f); } o = std::max(o, so); r = std::max(r, sr); }
+    for (size_t i = 0; i < N; ++i) { LD so = 0, sr = 0; prod *= (LD)R(i, i); for (size_t j = 0; j < N; ++j) { LD e = (i == j) ? -1.0L : 0.0L, f = -(LD)A(perm[i], j); for (size_t k = 0; k < N; ++k) { e += (LD)Q(k, i) * (LD)Q(k, j); f += (LD)Q(i, k) * (LD)R(k, j); } so += std::fabs(e); sr += std::fabs(f); } o = nmax(o, so); r = nmax(r, sr); }
     if (!(o == o)) o = 1e300L; if (!(r == r)) r = 1e300L;
     const LD dq = (LD)determinant<DetCompType::QR>(A); const LD ninv = inf_norm(Tensor<T,N,N>(inverse<InvCompType::SimpleInvPiv>(A)));
     std::printf("Q %s %d %ld", name, fam, sd); pl(o); pl(r); pl(inf_norm(A)); std::printf(" %ld %d", nz, permok ? 1 : 0); pl(std::fabs(std::fabs(dq) - std::fabs(prod))); pl(std::fabs(prod)); pl(ninv); std::printf("\n");
@@ -207,12 +231,20 @@ static void c13() {
         { Tensor<T,N,N> Q, R; Q.fill((T)7); R.fill((T)7); qr<QRCompType::MGSR>(A, Q, R); rep_qr("MGSR", fam, sd, A, Q, R, id, true); }
         { Tensor<T,N,N> Q, R; Q.fill((T)7); R.fill((T)7); qr<QRCompType::MGSR>(A + 0 * A, Q, R); rep_qr("MGSR/expression", fam, sd, A, Q, R, id, true); }
     }
-    for (int fi = 0; fi < 5; ++fi) for (long sd = 0; sd < NSEEDS; ++sd) {
+    for (int fi = 0; fi < NPF; ++fi) for (long sd = 0; sd < NSEEDS; ++sd) {
         const int fam = PFAMS[fi]; const Tensor<T,N,N> A = gen(fam, sd);
         { Tensor<T,N,N> Q, R; Q.fill((T)7); R.fill((T)7); Tensor<size_t,N> P; qr<QRCompType::MGSRPiv>(A, Q, R, P); std::vector<size_t> perm(N, 0); std::vector<int> seen(N, 0); bool ok = true;
           for (size_t i = 0; i < N; ++i) { perm[i] = P(i) < N ? P(i) : 0; if (P(i) >= N || seen[P(i)]++) ok = false; } rep_qr("MGSRPiv/vector", fam, sd, A, Q, R, perm, ok); }
         { Tensor<T,N,N> Q, R, P; Q.fill((T)7); R.fill((T)7); qr<QRCompType::MGSRPiv>(A, Q, R, P); std::vector<size_t> perm(N, 0); std::vector<int> seen(N, 0); bool ok = true;
           for (size_t i = 0; i < N; ++i) { int ones = 0; for (size_t j = 0; j < N; ++j) { if (P(i, j) == 1) { ++ones; perm[i] = j; } else if (P(i, j) != 0) ok = false; } if (ones != 1 || seen[perm[i]]++) ok = false; } rep_qr("MGSRPiv/matrix", fam, sd, A, Q, R, perm, ok); }
+        { Tensor<T,N,N> Q, R; Q.fill((T)7); R.fill((T)7); Tensor<size_t,N> P; qr<QRCompType::MGSRPiv>(A + (T)0 * A, Q, R, P); std::vector<size_t> perm(N, 0); std::vector<int> seen(N, 0); bool ok = true;
+          for (size_t i = 0; i < N; ++i) { perm[i] = P(i) < N ? P(i) : 0; if (P(i) >= N || seen[P(i)]++) ok = false; } rep_qr("MGSRPiv/vector/expression", fam, sd, A, Q, R, perm, ok); }
+        { Tensor<T,N,N> Q, R, P; Q.fill((T)7); R.fill((T)7); qr<QRCompType::MGSRPiv>(A + (T)0 * A, Q, R, P); std::vector<size_t> perm(N, 0); std::vector<int> seen(N, 0); bool ok = true;
+          for (size_t i = 0; i < N; ++i) { int ones = 0; for (size_t j = 0; j < N; ++j) { if (P(i, j) == 1) { ++ones; perm[i] = j; } else if (P(i, j) != 0) ok = false; } if (ones != 1 || seen[perm[i]]++) ok = false; } rep_qr("MGSRPiv/matrix/expression", fam, sd, A, Q, R, perm, ok); }
+    }
+    if (sizeof(T) == 8) for (long sd = 0; sd < NSEEDS; ++sd) {          // condition number 1e5 (double only): modified Gram-Schmidt loses orthogonality like eps*cond, not eps*cond^2
+        const Tensor<T,N,N> A = gen(5, sd); std::vector<size_t> id(N); for (size_t i = 0; i < N; ++i) id[i] = i;
+        Tensor<T,N,N> Q, R; Q.fill((T)7); R.fill((T)7); qr<QRCompType::MGSR>(A, Q, R); rep_qr("MGSR", 5, sd, A, Q, R, id, true);
     }
 }
 #endif
